@@ -16,7 +16,7 @@ pub fn meta() -> Meta {
 String::try_from(TXT::try_from(s)) == s directly and after a wire round trip, every character-string <= 255 bytes (hook accessor + independent wire decode); (b) attribute maps within limits \
 (keys non-empty and free of '=', entries <= 255 bytes, values absent/empty/non-empty): TXT::try_from(map).attributes() == map directly and after the wire; duplicates added with add_string: first wins; \
 (c) long_attributes equals an independent splitter (split at ';' characters, then at the first '=' character, first wins) on strings containing the look-alikes U+013B, U+023B, U+013D, U+0A3D ...; \
-(d) CharacterString::new / try_from(&str) / try_from(String) / TXT::add_string / with_string are Ok iff length <= 255 for every length 0..300. non-trivial = every case; distinct = hash of the input",
+(d) CharacterString::new / try_from(&str) / try_from(String) / TXT::add_string / with_string are Ok iff the BYTE length is <= 255, for every length 0..300 of texts made of 1-, 2-, 3- and 4-byte characters, and TXT::try_from(HashMap) is Ok iff its entry is <= 255 bytes. non-trivial = every case; distinct = hash of the input",
         assumptions: &["maps are compared on non-empty keys (the statement is silent on empty keys)"],
         exhaustive: false,
         min_distinct: 2000,
@@ -258,26 +258,41 @@ pub fn run(ctx: &mut Ctx) {
             if !ctx.take("limits", len) {
                 continue;
             }
-            ctx.case(true, len ^ 0x19D0000);
-            let bytes = vec![b'z'; len as usize];
-            let s = String::from_utf8(bytes.clone()).unwrap();
-            let want = len <= 255;
-            let res = monitor::guard(|| {
-                [
-                    CharacterString::new(&bytes).is_ok(),
-                    CharacterString::try_from(s.as_str()).is_ok(),
-                    CharacterString::try_from(s.clone()).is_ok(),
-                    TXT::new().add_string(&s).is_ok(),
-                    TXT::new().with_string(&s).is_ok(),
-                ]
-            });
-            match res {
-                Err(pn) => ctx.panic_violation("CharacterString construction", &pn, json!({"family": "limits", "idx": len})),
-                Ok(got) => {
-                    if got.iter().any(|g| *g != want) {
-                        ctx.violation("limit-255", "over-long-string-accepted-or-short-rejected", format!("length {}: constructors returned {:?}", len, got), json!({"family": "limits", "idx": len}));
-                    } else {
-                        ctx.count("length_limits_as_expected");
+            // the limit is 255 BYTES: texts of exactly `len` bytes made of 1-, 2-, 3- and 4-byte characters
+            for (flavour, ch) in ['z', 'é', '€', '😀'].into_iter().enumerate() {
+                ctx.case(true, len ^ 0x19D0000 ^ ((flavour as u64) << 32));
+                let mut s = String::new();
+                while s.len() + ch.len_utf8() <= len as usize { s.push(ch); }
+                while s.len() < len as usize { s.push('z'); }
+                let bytes = s.as_bytes().to_vec();
+                let want = len <= 255;
+                // an attribute map with one entry `k=<value>` of exactly `len` bytes (len >= 2)
+                let entry_value: Option<String> = if len >= 2 && s.is_char_boundary(2) { Some(s[2..].to_string()) } else { None };
+                let res = monitor::guard(|| {
+                    let map_ok = entry_value.as_ref().map(|v| {
+                        let mut m = HashMap::new();
+                        m.insert("k".to_string(), Some(v.clone()));
+                        TXT::try_from(m).is_ok()
+                    });
+                    ([
+                        CharacterString::new(&bytes).is_ok(),
+                        CharacterString::try_from(s.as_str()).is_ok(),
+                        CharacterString::try_from(s.clone()).is_ok(),
+                        TXT::new().add_string(&s).is_ok(),
+                        TXT::new().with_string(&s).is_ok(),
+                    ], map_ok)
+                });
+                let case = || json!({"family": "limits", "idx": len, "character": ch.to_string()});
+                match res {
+                    Err(pn) => ctx.panic_violation("CharacterString construction", &pn, case()),
+                    Ok((got, map_ok)) => {
+                        if got.iter().any(|g| *g != want) {
+                            ctx.violation("limit-255", "over-long-string-accepted-or-short-rejected", format!("{} bytes of {:?}: constructors [new, try_from(&str), try_from(String), add_string, with_string] returned {:?}", len, ch, got), case());
+                        } else if map_ok.map(|m| m != want).unwrap_or(false) {
+                            ctx.violation("limit-255", "attribute-entry-limit", format!("an attribute entry of {} bytes (value of {:?}): TXT::try_from(HashMap) returned ok={:?}", len, ch, map_ok), case());
+                        } else {
+                            ctx.count("length_limits_as_expected");
+                        }
                     }
                 }
             }
